@@ -80,18 +80,26 @@ theorem whole_batches (ks prev : List Nat) (o : Obs) (h : Consistent ks prev o) 
     refine ⟨kp.1, hz.1, ?_⟩
     simp [List.getD, hz.2]
 
-/-- in particular every present document of a writer carries one and the same sequence number -/
-theorem one_seq_per_writer (ks prev : List Nat) (o : Obs) (h : Consistent ks prev o) (w : Nat) (ds : List Nat)
-    (hw : o.docs[w]? = some ds) : ∀ d ∈ ds, d = o.ints.getD w 0 ∨ d = 0 := by
-  obtain ⟨k, _, hds⟩ := whole_batches ks prev o h w ds hw
+/-- in particular every fixed document of a writer carries the number in the writer's internal key -/
+theorem fixed_docs_one_seq (ks prev : List Nat) (o : Obs) (h : Consistent ks prev o) (w : Nat) (ds : List Nat)
+    (hw : o.docs[w]? = some ds) : ∃ k, ks[w]? = some k ∧ ds.take k = List.replicate k (o.ints.getD w 0) := by
+  obtain ⟨k, hk, hds⟩ := whole_batches ks prev o h w ds hw
+  refine ⟨k, hk, ?_⟩
   subst hds
-  intro d hd
-  unfold docsAfter at hd
-  simp only [List.mem_append, List.mem_cons, List.not_mem_nil, or_false] at hd
-  rcases hd with hd | hd | hd
-  · exact Or.inl (List.eq_of_mem_replicate hd)
-  · split at hd <;> simp [hd]
-  · split at hd <;> simp [hd]
+  unfold docsAfter
+  rw [List.append_assoc, List.take_append_of_le_length (by simp)]
+  simp
+
+/-- a ring slot never runs ahead of the writer's batch number and is at most five batches behind -/
+theorem ring_le (p s : Nat) : ring p s ≤ p := by
+  unfold ring; split <;> omega
+
+theorem ring_recent (p s : Nat) (hs : s < 6) (hp : 6 ≤ p) : p < ring p s + 6 := by
+  unfold ring
+  have : ¬ p < s := by omega
+  rw [if_neg this]
+  have := Nat.mod_lt (p - s) (by omega : 0 < 6)
+  omega
 
 /-- successive accepted observations of one client never go backwards -/
 theorem monotone_reads (ks prev : List Nat) (o : Obs) (h : Consistent ks prev o) :
@@ -105,9 +113,10 @@ theorem covers_acked (ks prev : List Nat) (o : Obs) (h : Consistent ks prev o) :
   obtain ⟨ps, _, _, hints, _, hacked, _⟩ := h
   subst hints; exact hacked
 
-example : check [2, 2] [0, 0] ⟨1, [1, 0], [[1, 1, 1, 0], [0, 0, 0, 0]], [1, 0], 3⟩ = true := by decide
-example : check [2, 2] [0, 0] ⟨1, [1, 0], [[1, 2, 1, 0], [0, 0, 0, 0]], [1, 0], 3⟩ = false := by decide   -- half a batch
-example : check [2, 2] [0, 0] ⟨1, [2, 0], [[1, 1, 1, 0], [0, 0, 0, 0]], [1, 0], 3⟩ = false := by decide   -- older than acknowledged
-example : check [2, 2] [0, 0] ⟨1, [1, 0], [[1, 1, 1, 0], [0, 0, 0, 0]], [1, 0], 2⟩ = false := by decide   -- count from another moment
+example : docsAfter 2 8 = [8, 8, 8, 8, 6, 7, 8, 3, 4, 5] := by decide
+example : check [2, 2] [0, 0] ⟨1, [1, 0], [[1, 1, 1, 0, 0, 1, 0, 0, 0, 0], [0, 0, 0, 0, 0, 0, 0, 0, 0, 0]], [1, 0], 4⟩ = true := by decide
+example : check [2, 2] [0, 0] ⟨1, [1, 0], [[1, 2, 1, 0, 0, 1, 0, 0, 0, 0], [0, 0, 0, 0, 0, 0, 0, 0, 0, 0]], [1, 0], 4⟩ = false := by decide   -- half a batch
+example : check [2, 2] [0, 0] ⟨1, [2, 0], [[1, 1, 1, 0, 0, 1, 0, 0, 0, 0], [0, 0, 0, 0, 0, 0, 0, 0, 0, 0]], [1, 0], 4⟩ = false := by decide   -- older than acknowledged
+example : check [2, 2] [0, 0] ⟨1, [1, 0], [[1, 1, 1, 0, 0, 1, 0, 0, 0, 0], [0, 0, 0, 0, 0, 0, 0, 0, 0, 0]], [1, 0], 3⟩ = false := by decide   -- count from another moment
 
 end Bleve.History
